@@ -29,6 +29,18 @@ fn okn<const B: usize, const L: usize>(v: &U<B, L>, n: usize) -> String {
 // ------------------------------------------------------------------------------------------------
 // decoders (C17). Each returns the canonical outcome line.
 
+/// an `io::Read` that returns short reads (1, 2, 3, 1, 2, 3 … bytes at a time)
+pub struct Dribble<'a>(pub &'a [u8], pub usize);
+impl std::io::Read for Dribble<'_> {
+    fn read(&mut self, buf: &mut [u8]) -> std::io::Result<usize> {
+        let n = buf.len().min(self.0.len()).min(1 + self.1 % 3);
+        self.1 += 1;
+        buf[..n].copy_from_slice(&self.0[..n]);
+        self.0 = &self.0[n..];
+        Ok(n)
+    }
+}
+
 pub fn dec<const B: usize, const L: usize>(name: &str, inp: &[u8]) -> String {
     match name {
         "arlp" => {
@@ -84,10 +96,21 @@ pub fn dec<const B: usize, const L: usize>(name: &str, inp: &[u8]) -> String {
         },
         "borshr" => {
             let mut s = inp;
-            match <U<B, L> as borsh::BorshDeserialize>::deserialize_reader(&mut s) {
+            let r = match <U<B, L> as borsh::BorshDeserialize>::deserialize_reader(&mut s) {
                 Ok(v) => okn(&v, inp.len() - s.len()),
                 Err(e) => format!("err {}", variant(&e.kind())),
+            };
+            // the same bytes through a reader that delivers them in pieces of 1, 2, 3, 1, 2, 3 … bytes (short reads are
+            // legal for `io::Read`): the outcome and the number of bytes consumed must not depend on it
+            let mut d = Dribble(inp, 0);
+            let r2 = match <U<B, L> as borsh::BorshDeserialize>::deserialize_reader(&mut d) {
+                Ok(v) => okn(&v, inp.len() - d.0.len()),
+                Err(e) => format!("err {}", variant(&e.kind())),
+            };
+            if r2 != r {
+                return format!("READER-MISMATCH {r} / {r2}");
             }
+            r
         }
         "borshbits" => match borsh::from_slice::<ruint::Bits<B, L>>(inp) {
             Ok(v) => okv(v.as_uint()),
